@@ -15,6 +15,7 @@ Functions under contract and front ends
   spec lemmas (no code): fold/resume  fold(fold(s, D1), D2) == fold(s, D1 ++ D2)  by induction spelled out (base + step goals);
     the repeated INPUT/OUTPUT pseudo-operators never change which names a sample reports.
 Bounded stand-in (never counted as proved): Quantizer.calibrate on fixture models against our own interpreter runs (replay/c09_native.py)."""
+import numpy as np
 import ast, fractions, importlib, time
 import z3
 from vlib import core, pyvc, symnp
@@ -199,6 +200,27 @@ def standin(rep):
     except Exception as e: rep.extra['operator_list_growth_observation'] = f'observation failed: {e!r}'
     return fails
 
+def native_moving_average_search(cu):
+    """the real moving_average_update on concrete statistics (zero, negative zero, tiny, ordinary; scalars and 1-element / per-channel arrays) against
+    the specification  {} -> new ;  otherwise 0.95 * old + 0.05 * new  for min and max"""
+    vals = [0.0, -0.0, 1e-30, -1.5, 2.25, 7.0]
+    shapes = [lambda v: np.float32(v), lambda v: np.array([v], dtype=np.float32), lambda v: np.array([[v]], dtype=np.float32), lambda v: np.array([v, 1.0], dtype=np.float32)]
+    for mk in shapes:
+        for omin in vals:
+            for omax in vals:
+                for nmin, nmax in ((-3.0, 4.0), (0.0, 0.0), (0.5, 0.5)):
+                    old = {'min': mk(omin), 'max': mk(omax)}; new = {'min': mk(nmin), 'max': mk(nmax)}
+                    try: got = cu.moving_average_update(dict(old), dict(new))
+                    except Exception as e: return dict(confirmed=True, inputs=dict(old=str(old), new=str(new)), violated=[f'raised {type(e).__name__}: {e}'])
+                    for k in ('min', 'max'):
+                        want = 0.95 * np.asarray(old[k], dtype=np.float64) + 0.05 * np.asarray(new[k], dtype=np.float64)
+                        if not np.allclose(np.asarray(got[k], dtype=np.float64), want, rtol=1e-5, atol=1e-30):
+                            return dict(confirmed=True, inputs=dict(old=str(old), new=str(new)), violated=[f'{k}: got {got[k]!r}, specification 0.95*old + 0.05*new = {want!r}'])
+    try:
+        if cu.moving_average_update({}, {'min': np.float32(1), 'max': np.float32(2)}) != {'min': np.float32(1), 'max': np.float32(2)}: return dict(confirmed=True, inputs='empty old statistics', violated=['empty statistics are not replaced by the new ones'])
+    except Exception as e: return dict(confirmed=True, inputs='empty old statistics', violated=[f'raised {type(e).__name__}'])
+    return None
+
 # ---------------------------------------------------------------------------------------------- driver
 def run(rep):
     M = cc.load_mods(want=('uq', 'fbu', 'utils', 'nmm')); cu = c09_stats.load_cu(); fns = {k: rep.fn(core.Fn(rel, q)) for k, (rel, q) in FNS.items()}
@@ -211,7 +233,12 @@ def run(rep):
     # (2) symnp / cpython-exec / exhaustive-native families
     try: goals = families(M, cu)
     except symnp.Undecided as e:
-        rep.errors.append(f'front end could not follow the code: {e}'); goals = []
+        # the changed arithmetic carriers leave the symbolic front end (e.g. a branch on a statistic's VALUE): undecided, unless the native search finds a failing input
+        goals = []; fb = native_moving_average_search(cu)
+        ob = core.Ob('C09/utils.calibration_utils.moving_average_update/engine-subset', fns.get('calibration_utils.moving_average_update'), 'cpython-exec-symnp', core.REFUTED if fb else core.UNKNOWN, 0.0,
+                     detail=f'the symbolic front end could not follow the code: {e}', clause='functions within the symbolic-numpy subset (control flow must not depend on array values)')
+        if fb: ob.replay = fb
+        rep.add(ob)
     res = cc.discharge(goals); cc.register(rep, 'C09', fns, goals, res); base = {g.id: r[0] for g, r in zip(goals, res)}
     rep.extra['obligations_per_family'] = {k: sum(1 for g in goals if g.family == k) for k in ('moving-average', 'calibrate-func', 'init-qsvs', 'registry')}
     # (3) dataflow obligations and spec lemmas
